@@ -8,11 +8,17 @@
     position); the model sets its panic flag exactly where one of them would be out of range, and the theorem is an
     invariant of the cursor (the per-line rune counts are never negative, there is one more line than the pending
     string has newlines, and a rune that was just read can be given back) kept by every state function.
-    That [OHang] never occurs is established by the correspondence run only (every prefix, deletion and insertion
-    of generated files, random bytes, size-scaling families), not by a theorem: labelled partial.
+    Proved as well for EVERY input: the lexer never spins.  Every state function, on every cursor, sends a token,
+    or leaves fewer bytes in the reader, or moves to a state of lower rank (two rank tables, one while input
+    remains and one at its end, nine levels); so fewer than 9 * (bytes left + 1) state calls separate two tokens,
+    and the budget the model gives the pump is never used up.  What is NOT proved is that the parser's own loop
+    ends within its budget ([PBudget], reported as [OHang] too): that rests on the correspondence run only (every
+    prefix, deletion and insertion of generated files, random bytes, size-scaling families).  Labelled partial.
     OBLIGATIONS: C06_state_call_emits_few C06_lexer_never_blocks C06_compile_never_deadlocks C06_cursor_stays_in_range
-                 C06_lexer_never_panics C06_compile_never_panics C06_nonvacuous *)
-From GV Require Import Compiler.Compile Proofs.LexProofs Proofs.NoDeadlockProofs Proofs.LexSafeProofs Proofs.NoPanicProofs.
+                 C06_lexer_never_panics C06_compile_never_panics C06_state_call_makes_progress C06_lexer_never_spins
+                 C06_only_parser_budget_left C06_loop_bounds_never_reached C06_nonvacuous *)
+From GV Require Import Compiler.Compile Proofs.LexProofs Proofs.NoDeadlockProofs Proofs.LexSafeProofs Proofs.NoPanicProofs
+  Proofs.LexProgressProofs Proofs.LexPumpProofs Proofs.NoSpinProofs Proofs.LexFuelProofs.
 From Coq Require Import Lia.
 
 (** every state function, on every cursor, sends at most four tokens (the channel holds [c_token_queue_cap] tokens,
@@ -37,13 +43,53 @@ Proof. intros st l input. split; [apply step_base|apply init_base]. Qed.
 Print Assumptions C06_cursor_stays_in_range.
 
 Theorem C06_lexer_never_panics : forall fuel lx, safe lx ->
-  match next_token fuel lx with PTok _ lx' => safe lx' | PDeadlock => False | PPanic => False | PHang => True end.
+  match next_token fuel lx with PTok _ lx' => safe lx' | PDeadlock => False | PPanic => False | _ => True end.
 Proof. exact next_token_safe. Qed.
 Print Assumptions C06_lexer_never_panics.
 
 Theorem C06_compile_never_panics : forall input, compile_parse input <> OPanic.
 Proof. exact compile_never_panics. Qed.
 Print Assumptions C06_compile_never_panics.
+
+(** every state function but the final one, on every cursor: the reader never grows, and a token is sent, or the
+    reader shrinks, or the rank of the state goes down ([A] = bytes left in the reader, [ol] = tokens sent so far
+    by this call, [rk1] / [rk0] = rank while input remains / at its end) *)
+Theorem C06_state_call_makes_progress : forall st l, st <> SNil ->
+  (A (snd (step st l)) <= A l)%nat /\
+  ((ol l < ol (snd (step st l)))%nat \/ (A (snd (step st l)) < A l)%nat \/
+   (if Nat.eqb (A l) 0 then rk0 (fst (step st l)) < rk0 st else rk1 (fst (step st l)) < rk1 st)%nat).
+Proof. exact step_progress. Qed.
+Print Assumptions C06_state_call_makes_progress.
+
+(** the pump never uses up a budget of 9 * (bytes left + 1) state calls, whatever the state and the cursor *)
+Theorem C06_lexer_never_spins : forall fuel lx,
+  ol (lx_st lx) = 0%nat -> (9 * (A (lx_st lx) + 1) <= fuel)%nat -> next_token fuel lx <> PHang.
+Proof.
+  intros fuel lx H Hf. apply next_token_never_spins; [exact H|].
+  pose proof (mu_bound (lx_state lx) (lx_st lx)) as Hm. unfold rk_levels in Hm. lia.
+Qed.
+Print Assumptions C06_lexer_never_spins.
+
+(** for every input: the only abnormal outcome of the model that is not excluded is the parser's loop budget *)
+Theorem C06_only_parser_budget_left : forall input,
+  (forall c, parse_bytes input = Crashed c -> c = PBudget) /\
+  (compile_parse input = OHang -> parse_bytes input = Crashed PBudget).
+Proof. intro input. split; [apply parse_crash_only_budget|apply compile_hang_only_parser_budget]. Qed.
+Print Assumptions C06_only_parser_budget_left.
+
+(** the loops inside the state functions run on the reader's bytes as fuel and return what they have when it is used
+    up; that never happens: with any amount of additional fuel they return the same *)
+Theorem C06_loop_bounds_never_reached : forall extra l,
+  (forall v, accept_run_aux (l_after l ++ extra) v l = accept_run v l) /\
+  (forall v, accept_until_aux (l_after l ++ extra) v l = accept_until v l) /\
+  (forall v, skip_run_aux (l_after l ++ extra) v l = skip_run v l) /\
+  (forall v, skip_until_aux (l_after l ++ extra) v l = skip_until v l) /\
+  (forall q esc, to_quote_aux (l_after l ++ extra) q esc l = to_quote_aux (l_after l) q esc l) /\
+  (forall e, to_brace_aux (l_after l ++ extra) e false false 0 l = continue_to_matching_brace e l) /\
+  goht_start_loop (l_after l ++ extra) l = goht_start_loop (l_after l) l /\
+  (forall s, all_space_aux (s ++ extra) s = all_space s).
+Proof. exact loops_never_run_out. Qed.
+Print Assumptions C06_loop_bounds_never_reached.
 
 (** non-vacuity / smoke: the model compiles a small template and rejects a truncated one *)
 Example C06_nonvacuous :
@@ -55,6 +101,10 @@ Example C06_nonvacuous :
   (* the panic outcome is expressible: giving back a rune on a cursor that violates the invariant raises the flag,
      and the pump reports it *)
   l_panic (backup (mkL [] [] None [65] 1 [0%Z] 0 [] false)) = true /\
-  (match next_token 5 (mkLexer SGohtLineStart (mkL [] (lit "x") None [] 0 [] 0 [] false) [] false) with PPanic => true | _ => false end) = true.
-Proof. split; [vm_compute; reflexivity|]. split; [vm_compute; reflexivity|]. split; [reflexivity|]. split; vm_compute; reflexivity. Qed.
+  (match next_token 5 (mkLexer SGohtLineStart (mkL [] (lit "x") None [] 0 [] 0 [] false) [] false) with PPanic => true | _ => false end) = true /\
+  (* the spinning outcome is expressible too: with a budget of one state call the pump gives up on a line of Go
+     code (two silent state calls come before its first token), with the budget of the theorem it does not *)
+  (match next_token 1 (new_lexer (lit "x")) with PHang => true | _ => false end) = true /\
+  (match next_token 18 (new_lexer (lit "x")) with PTok _ _ => true | _ => false end) = true.
+Proof. split; [vm_compute; reflexivity|]. split; [vm_compute; reflexivity|]. split; [reflexivity|]. repeat split; vm_compute; reflexivity. Qed.
 Print Assumptions C06_nonvacuous.
